@@ -16,13 +16,19 @@ def isComposite (s : SchemaD) (n : String) : Bool :=
   | some .object | some .interface | some .union => true
   | _ => false
 
-/-- `@skip` / `@include` carry a Boolean literal or a variable that has a (coerced) value -/
-def dirsOk (vars : Vars) (dirs : List Dir) : Bool :=
+/-- Directive conditions need NO premise any more: since fix 4e87d3d an `@skip` / `@include` condition that cannot be
+    evaluated at run time (list literal let through by the validator, nullable variable with a default explicitly set to
+    null) is a FIELD ERROR of the enclosing field, not an exception. The clause is kept (trivially true) so that `selOk`
+    keeps its shape. -/
+def dirsOk (_vars : Vars) (_dirs : List Dir) : Bool := true
+
+/-- all conditions evaluate: Boolean literals or variables bound to a non-null value (then no directive error occurs) -/
+def dirsStrict (vars : Vars) (dirs : List Dir) : Bool :=
   dirs.all fun d =>
     if d.name == "skip" || d.name == "include" then
       match d.cond with
       | .lit _ => true
-      | .var v => (vars.get? v).isSome
+      | .var v => (match vars.get? v with | some .null => false | some _ => true | none => false)
       | .bad => false
     else true
 
@@ -126,8 +132,7 @@ def docDirs (doc : Doc) : List Dir :=
 
 /-- why a document is not `ValidDoc` (for reports only) -/
 def validDocWhy (s : SchemaD) (doc : Doc) (vars : Vars) : String :=
-  if !dirsOk vars (docDirs doc) then "skip-include-condition-not-boolean-literal-or-defined-variable"
-  else if !opsOk s doc vars then "operation-selection-ill-typed"
+  if !opsOk s doc vars then "operation-selection-ill-typed"
   else if !fragsOk s doc vars then "fragment-ill-typed"
   else if !fragsAcyclic doc then "fragment-cycle"
   else if !fragsUnique doc then "duplicate-fragment-names"
